@@ -7,6 +7,7 @@ import (
 	"strings"
 
 	mqtt "github.com/at-wat/mqtt-go"
+	"github.com/at-wat/mqtt-go/internal/verif/vrt"
 )
 
 // C14 - topic filters validate/match per MQTT 3.1.1 section 4.7; ServeMux dispatches accordingly.
@@ -383,6 +384,43 @@ func runC14(c *Ctx) {
 	}
 	c.Res.Evaluations += muxCases
 	c.Res.Parts["mux_cases"] = muxCases
+
+	// ---- part "reentrant": a handler that registers a further handler on the mux it is called from
+	// (explored under the scheduler so that a self-deadlock is a verdict, not a hang)
+	c.Bound("reentrant", "a ServeMux whose first handler registers a second handler on the same mux while it is being served; two messages; the second message must reach both handlers in registration order")
+	{
+		var calls []string
+		sc := &vrt.Scenario{
+			Name:  "C14/reentrant/handler-registers-handler",
+			Bound: vrt.Budget{P: 1},
+			Body: func() {
+				calls = nil
+				mux := &mqtt.ServeMux{}
+				registered := false
+				if err := mux.Handle("#", mqtt.HandlerFunc(func(m *mqtt.Message) {
+					calls = append(calls, "first:"+m.Topic)
+					if !registered {
+						registered = true
+						if err := mux.Handle("b/#", mqtt.HandlerFunc(func(m *mqtt.Message) { calls = append(calls, "second:"+m.Topic) })); err != nil {
+							vrt.Failf("reentrant/handle-error", "Handle from inside a handler: %v", err)
+						}
+					}
+				})); err != nil {
+					vrt.Failf("reentrant/handle-error", "Handle: %v", err)
+					return
+				}
+				mux.Serve(&mqtt.Message{Topic: "b/1"})
+				mux.Serve(&mqtt.Message{Topic: "b/2"})
+				got := strings.Join(calls, " ")
+				// the handler registered during the first dispatch may or may not see the first message
+				if got != "first:b/1 first:b/2 second:b/2" && got != "first:b/1 second:b/1 first:b/2 second:b/2" {
+					vrt.Failf("reentrant/dispatch", "handler invocations %q; the second message must be handed to both handlers in registration order", got)
+				}
+			},
+			Observe: func() uint64 { return vrt.HashString(strings.Join(calls, " ")) },
+		}
+		c.Explore(sc)
+	}
 
 	if c.Shard == 0 {
 		for _, s := range [][2]string{{"a/#", "a"}, {"a/", "a"}, {"+/+", "/"}, {"a/+", "a/"}} {
